@@ -16,11 +16,6 @@ import (
 	ocispec "github.com/opencontainers/image-spec/specs-go/v1"
 )
 
-//vsym:stub time.Now = kitNow
-
-// kitNow: the verification instant under the engine (natively the real clock is used; the
-// certificate windows of the C01/C02/C03/C04 harnesses contain both).
-func kitNow() time.Time { return time.Unix(1900000000, 0) }
 
 const c01PayloadType = "application/vnd.cncf.notary.payload.v1+json"
 
